@@ -106,7 +106,9 @@ pub fn display_name(n: &[u8; 11]) -> String {
             if i == 8 {
                 s.push('.');
             }
-            s.push(*c as char);
+            // a stored 0x05 in the first position stands for 0xE5 (FAT specification)
+            let c = if i == 0 && *c == 0x05 { 0xE5 } else { *c };
+            s.push(c as char);
         }
     }
     s
